@@ -57,6 +57,7 @@ func c02Menu(thorough bool) []enga.ABlock {
 		ev(enga.Event{Kind: "req:withdraw", N: 2}),
 		ev(enga.Event{Kind: "tx:process", N: 1}),
 		ev(enga.Event{Kind: "tx:process", N: 2, Var: "ids-permuted-after-the-vote"}),
+		ev(enga.Event{Kind: "tx:process", N: 1, Var: "one-id-already-processing"}), // genuine vote, fails at the last id: no trace, no sequence
 		ev(enga.Event{Kind: "req:removevoter"}),
 		ev(enga.Event{Kind: "tx:consolidation"}),
 		ev(enga.Event{Kind: "tx:consolidation", Var: "withhold"}), // a collected vote that is not submitted yet
@@ -115,7 +116,7 @@ func runC02(r *mc.Run) {
 		depth = 4
 		r.SetBudget(13 * 60 * 1e9)
 	} else {
-		r.SetBudget(170 * 1e9)
+		r.SetBudget(300 * 1e9)
 	}
 	r.Bounds["depth_blocks"] = depth
 	r.Rule = "tree search over block histories of the real application (relayer proposer + 1 voter, and proposer alone; electing period 6 s): fresh voted messages (block hashes, new key, process withdrawal), voted messages that fail after the signature check, non-voted messages, elections, membership requests, two voted transactions in one block (chained and same-sequence), and every vote produced earlier in the history re-presented unchanged / with the claimed sequence, epoch and proposer rewritten / attached to another payload or action, and (at the last level) each ill-founded variant twice in a row to the same application instance; oracle = reference sequence counter and randao chain; a failed transaction leaves relayer and bridge stores equal to the same block without that transaction"
@@ -232,6 +233,9 @@ func c02Explore(r *mc.Run, voters, depth int, menu []enga.ABlock, only []enga.AB
 				}
 				if e.Kind == "tx:process" && e.Var == "ids-permuted-after-the-vote" && ok {
 					viol("vote-for-another-payload-accepted:permuted-ids", "a vote collected for one order of the withdrawal ids was accepted for another order")
+				}
+				if e.Kind == "tx:process" && e.Var == "one-id-already-processing" && ok {
+					viol("proposal-naming-a-closed-withdrawal-succeeded", "a voted batch whose last id is already being processed was applied with code 0")
 				}
 				if e.Kind == "tx:newpubkey" && e.Var == "existing" && ok {
 					viol("existing-key-accepted", "NewPubkey with an already registered key succeeded")
